@@ -116,8 +116,13 @@ SCHEDULES = [
     ("reader preempted between index lookup and file read while a merge and a writer wait for its shard; everybody completes",
      "cfg mfs=0 pool=2 frag=0/1 dead=0 small=1099511627776",
      ["put 61 3131"],
-     ["t.park R get.lookup 1", "t.spawn R get 61", "t.wait R 5000", "t.spawn M merge", "t.spawn W put 61 3232", "sleep 50", "t.release R", "t.join R 5000", "t.join M 5000", "t.join W 5000", "get 61", "idle"],
-     {2: ["parked get.lookup"], 7: ["done 3131"], 8: ["done ok"], 9: ["done ok"], 10: ["3232"], 11: ["idle 2"]}),
+     ["t.park R get.lookup 1", "t.spawn R get 61", "t.wait R 5000", "t.spawn M merge", "t.wait M 400", "t.spawn W put 61 3232", "sleep 50", "t.release R", "t.join R 5000", "t.join M 5000", "t.join W 5000", "get 61", "idle"],
+     {2: ["parked get.lookup"], 4: ["timeout", "done ok"], 8: ["done 3131"], 9: ["done ok"], 10: ["done ok"], 11: ["3232"], 12: ["idle 2"]}),
+    ("the same window with a 32 KiB value and the merge given time to finish inside it",
+     "cfg mfs=0 pool=1 frag=0/1 dead=0 small=1099511627776",
+     ["put 61 31*32768", "put 62 3232"],
+     ["t.park R get.lookup 1", "t.spawn R get 61", "t.wait R 5000", "t.spawn M merge", "t.wait M 400", "t.release R", "t.join R 5000", "t.join M 5000", "get 61", "get 62", "idle"],
+     {2: ["parked get.lookup"], 4: ["timeout", "done ok"], 6: ["done #32768:"], 7: ["done ok"], 8: ["#32768:"], 9: ["3232"], 10: ["idle 1"]}),
     ("rollover between two writes: reader holds a mapping of the old active file, new entries land in the next file",
      "cfg mfs=60 pool=1",
      ["put 61 31*40"],
@@ -222,3 +227,236 @@ def run_c04(rep, tier, seed):
 
 
 RUNNERS = {"C04": run_c04}
+
+
+# ---------------------------------------------------------------------------------------------
+# C17: a closed store rejects all use and stops its background worker
+
+def run_c17(rep, tier, seed):
+    from p_crash import calls_of
+    rng = random.Random(seed * 1000 + 17)
+    root = os.path.join(WORK, "run-C17")
+    nv = 0
+    BG = "bitcask-background-tasks"
+    scenarios = []
+    reps = 1 if tier == "quick" else 6
+    for r in range(reps):
+        far = rng.choice([3600000, 600000])
+        scenarios += [
+            ("worker sleeping, next timer far away", f"cfg mfs=1000000 policy=always interval={far} jitter=3/10", [], 3000),
+            ("worker about to merge (between the trigger check and the merge call)", "cfg mfs=1000000 policy=always interval=40 jitter=0/1 tfrag=0/1 tdead=0 frag=0/1 dead=0 small=1099511627776", "park-merge", 3000),
+            ("worker syncing every 20 ms", "cfg mfs=1000000 sync=20 policy=never", [], 3000),
+            ("worker merging every 30 ms and syncing every 25 ms", "cfg mfs=60 sync=25 policy=always interval=30 jitter=1/1 tfrag=0/1 tdead=0 frag=0/1 dead=0 small=1099511627776", [], 3000),
+        ]
+    for si, (name, cfg, special, deadline) in enumerate(scenarios):
+        lines = [cfg, f"dir s{si}", "trace on", "keys 61 62"]
+        if special == "park-merge":
+            lines += [f"t.park {BG} bg.before_merge 1"]
+        lines += ["open", "put 61 3131", "put 61 3232", "put 62 3333", "del 62"]
+        if special == "park-merge":
+            lines += [f"t.wait {BG} 5000"]
+        else:
+            lines += ["sleep 60"]
+        i_drop = len(lines)
+        lines += ["drop"]
+        if special == "park-merge":
+            lines += [f"t.release {BG}"]
+        i_ops = len(lines)
+        lines += ["put 61 3434", "get 61", "del 61", "merge", "sync"]
+        i_wait = len(lines)
+        lines += [f"waitbg 0 {deadline}", "sleep 80", "trace-settle", "calls-after-drop", "close", "reopen", "get 61", "get 62", "close"]
+        # `trace-settle` / `calls-after-drop` are evaluated from the per-line traces; keep placeholders out of the script
+        script = [l for l in lines if l not in ("trace-settle", "calls-after-drop")]
+        shutil.rmtree(root, ignore_errors=True)
+        died = None
+        try:
+            ans = run_harness(["store", "--root", root, "--hang-ms", "20000"], script, preload=True, timeout=120)
+        except Died as d:
+            ans, died = d.answered, d
+        rep.cov["evaluations"] += len(script)
+        rep.count("drop_scenarios")
+        rep.nontrivial(["c17", name, si])
+        rep.cov["traces_validated_against_impl"] += 1
+        bad = None
+        if died is not None:
+            bad = (len(ans), "-", f"harness died / hung: {died.why}")
+        else:
+            idx = {l: i for i, l in enumerate(script)}
+            for l in ["put 61 3434", "get 61", "del 61", "sync"]:
+                i = script.index(l, i_drop)
+                if not strip(ans[i]).startswith("err closed"):
+                    bad = (i, "err closed", ans[i])
+                    break
+                if calls_of(ans[i]):
+                    bad = (i, "no file-system call", ans[i])
+                    break
+            i = script.index("merge", i_drop)
+            if not bad and not ans[i].startswith("err closed"):
+                bad = (i, "err closed", ans[i])
+            # nothing touches the directory after the drop (the close/reopen lines come later)
+            i_close = script.index("close", i_drop)
+            if not bad:
+                for j in range(i_drop + 1, i_close):
+                    if calls_of(ans[j]):
+                        bad = (j, "no change on disk after the store object was dropped", ans[j])
+                        break
+            i = next(k for k, l in enumerate(script) if l.startswith("waitbg"))
+            if not bad and not ans[i].endswith(" ok"):
+                bad = (i, "background worker thread gone within the deadline", ans[i])
+            i = script.index("reopen", i_drop)
+            if not bad and not ans[i].startswith("ok"):
+                bad = (i, "the directory opens again at once", ans[i])
+            if not bad and (ans[i + 1] != "3232" or ans[i + 2] != "nil"):
+                bad = (i + 1, "61=3232 62=nil (the pre-drop contents, untouched by the rejected operations)", ans[i + 1] + " " + ans[i + 2])
+        if bad:
+            nv += 1
+            if nv <= 3:
+                rep.violation("oracle", dict(what=f"drop while {name}: step `{script[bad[0]] if bad[0] < len(script) else '?'}` observed `{bad[2][:200]}`", script=script, answers=[a[:200] for a in ans],
+                                             failing_line=bad[0], expected=bad[1], observed=bad[2][:300]))
+        if si < 2:
+            rep.sample({"state": name, "script": script, "answers": [a[:100] for a in ans]})
+    # repeated open/close cycles do not accumulate threads or descriptors
+    ncyc = 50
+    script = ["cfg mfs=1000000 sync=15 policy=always interval=20 jitter=1/2", "dir cyc", "open", "put 61 31", "close", "sleep 300", "waitbg 0 3000", "procstat"]
+    for c in range(ncyc):
+        script += ["open", f"put 61 {c:02x}", "get 61", "close"]
+        if c in (9, ncyc - 1):
+            script += ["waitbg 0 5000", "sleep 300", "procstat"]
+    shutil.rmtree(root, ignore_errors=True)
+    try:
+        ans = run_harness(["store", "--root", root, "--hang-ms", "20000"], script, preload=False, timeout=300)
+        stats = [a for l, a in zip(script, ans) if l == "procstat"]
+        rep.count("open_close_cycles", ncyc)
+        rep.cov["evaluations"] += len(script)
+        rep.nontrivial(["c17-cycles"])
+
+        def parse(sx):
+            return tuple(int(x) for x in re.findall(r"threads=(\d+) fds=(\d+) bg=(\d+)", sx)[0])
+        a10, a50 = parse(stats[1]), parse(stats[2])
+        if a50[0] > a10[0] or a50[1] > a10[1] or a50[2] != 0:
+            rep.violation("oracle", dict(what=f"open/close cycles accumulate threads or open files: after 10 cycles {stats[1]}, after {ncyc} cycles {stats[2]}", script=script[:20], answers=stats))
+        bgw = [a for l, a in zip(script, ans) if l.startswith("waitbg")]
+        if any(not b.endswith(" ok") for b in bgw):
+            rep.violation("oracle", dict(what="a background worker thread was still alive 5 s after its store was closed: " + str(bgw), script=script[:20], answers=bgw))
+        rep.sample({"cycles": ncyc, "procstat": stats})
+    except Died as d:
+        rep.violation("oracle", dict(what=f"harness died / hung during open/close cycles ({d.why})", script=script[:20], answers=d.answered[-10:]))
+    shutil.rmtree(root, ignore_errors=True)
+    rep.cov["rule"] = ("the owning store object is dropped (a handle is kept) while the background worker is sleeping with its next timer 10-60 min away, parked between `can_merge()` and the merge call "
+                       "(schedule point), syncing every 20 ms, or merging+syncing continuously; then every API is called through the handle: must fail with `closed`, issue no file-system call "
+                       "(LD_PRELOAD recorder), the worker thread must be gone within 3 s, the directory must reopen at once with the pre-drop contents; plus 50 open/write/close cycles comparing "
+                       "thread and descriptor counts after cycle 10 and 50; non-trivial = distinct scenario")
+
+
+def strip(a):
+    return a.split(" | T ")[0]
+
+
+# ---------------------------------------------------------------------------------------------
+# C18: background merge and sync follow the configured policy
+
+def run_c18(rep, tier, seed):
+    rng = random.Random(seed * 1000 + 18)
+    root = os.path.join(WORK, "run-C18")
+    nv = 0
+    SLACK = 4000     # ms of scheduling slack granted on top of interval*(1+jitter) for positive expectations
+    import datetime
+    hour = datetime.datetime.now().hour
+    cases = []
+    n = 1 if tier == "quick" else 5
+    for _ in range(n):
+        interval = rng.choice([40, 80, 150])
+        jn, jd = rng.choice([(0, 1), (3, 10), (1, 1)])
+        # writes: k overwritten 3x -> file 0 has 3 dead of 4 entries (frag 3/4), ~84 dead bytes
+        above = "tfrag=1/2 tdead=1099511627776"
+        below = "tfrag=7/8 tdead=1099511627776"
+        above_bytes = "tfrag=1/1 tdead=50"
+        below_bytes = "tfrag=1/1 tdead=5000"
+        in_window = f"window:{hour}-{hour}"
+        out_window = f"window:{(hour + 2) % 24}-{(hour + 2) % 24}"
+        base = f"mfs=1000000 interval={interval} jitter={jn}/{jd} frag=0/1 dead=0 small=1099511627776"
+        deadline = int(interval * (1 + jn / jd)) + SLACK
+        quiet = max(6 * interval * 2, 600)
+        cases += [
+            (f"policy=always, fragmentation trigger exceeded ({above})", f"cfg {base} policy=always {above}", "merge", deadline),
+            (f"policy=always, dead-bytes trigger exceeded ({above_bytes})", f"cfg {base} policy=always {above_bytes}", "merge", deadline),
+            (f"policy=always, no trigger exceeded ({below})", f"cfg {base} policy=always {below}", "none", quiet),
+            (f"policy=always, dead bytes below the trigger ({below_bytes})", f"cfg {base} policy=always {below_bytes}", "none", quiet),
+            (f"policy=never, triggers exceeded", f"cfg {base} policy=never {above}", "none", quiet),
+            (f"policy=window containing the current hour, trigger exceeded", f"cfg {base} policy={in_window} {above}", "merge", deadline),
+            (f"policy=window not containing the current hour, trigger exceeded", f"cfg {base} policy={out_window} {above}", "none", quiet),
+        ]
+    writes = ["put 6b 31*10", "put 6b 32*10", "put 6b 33*10", "put 6b 34*10"]
+    for ci, (name, cfg, expect, wait) in enumerate(cases):
+        mcfg = cfg.replace("policy=" + (re.search(r"policy=(\S+)", cfg).group(1)), "policy=" + ("always" if expect == "merge" or "policy=always" in cfg else "never"))
+        script = [cfg, f"dir c{ci}", "open"] + writes + ["canmerge", f"waitfor hint {wait}", "get 6b", "close"]
+        mscript = [mcfg, f"dir c{ci}", "open"] + writes + ["canmerge"]
+        shutil.rmtree(root, ignore_errors=True)
+        died = None
+        try:
+            ans = run_harness(["store", "--root", root, "--hang-ms", "30000"], script, preload=False, timeout=120)
+        except Died as d:
+            ans, died = d.answered, d
+        mans = run_driver(mscript)
+        rep.cov["evaluations"] += len(script)
+        rep.count("policy_cases")
+        rep.nontrivial(["c18", name])
+        rep.cov["traces_validated_against_impl"] += 1
+        bad = None
+        if died is not None or len(ans) < len(script):
+            bad = (len(ans), "-", f"harness died / hung: {died.why if died else '?'}")
+        else:
+            i = script.index("canmerge")
+            exp_can = "true" if expect == "merge" else "false"
+            if ans[i] != exp_can:
+                bad = (i, exp_can, ans[i], "oracle")
+            elif mans[i] != ans[i]:
+                bad = (i, mans[i], ans[i], "correspondence")
+            w = ans[i + 1]
+            if not bad and expect == "merge" and not w.startswith("seen"):
+                bad = (i + 1, f"a merge within {wait} ms without any client action", w, "oracle")
+            if not bad and expect == "none" and w != "timeout":
+                bad = (i + 1, f"no merge ({wait} ms observed)", w, "oracle")
+            if not bad and ans[i + 2] != "34343434343434343434":
+                bad = (i + 2, "34343434343434343434", ans[i + 2], "oracle")
+            if w.startswith("seen"):
+                rep.count("merge_latency_ms_total", int(w.split(" ")[1]))
+        if bad:
+            nv += 1
+            if nv <= 3:
+                rep.violation(bad[3] if len(bad) > 3 else "oracle", dict(what=f"{name}: step `{script[bad[0]] if bad[0] < len(script) else '?'}` observed `{str(bad[2])[:100]}`", script=script, answers=ans,
+                                                                          failing_line=bad[0], expected=str(bad[1]), observed=str(bad[2])[:300], model_answers=mans))
+        if ci < 3:
+            rep.sample({"case": name, "script": script, "answers": ans})
+    # interval sync: the active file is fsynced at least once per interval while the store is open
+    for interval in ([50] if tier == "quick" else [30, 50, 120]):
+        script = [f"cfg mfs=1000000 sync={interval} policy=never", "dir sy", "trace on", "open", "put 61 31"] + [f"waitfor fsync {interval + SLACK}"] * 5 + ["close"]
+        shutil.rmtree(root, ignore_errors=True)
+        try:
+            ans = run_harness(["store", "--root", root, "--hang-ms", "30000"], script, preload=True, timeout=120)
+            ws = [a for l, a in zip(script, ans) if l.startswith("waitfor")]
+            rep.count("sync_cases")
+            rep.cov["evaluations"] += len(script)
+            rep.nontrivial(["c18-sync", interval])
+            if any(not w.startswith("seen") for w in ws):
+                rep.violation("oracle", dict(what=f"sync interval {interval} ms: no fsync of the active file observed within {interval + SLACK} ms: {ws}", script=script, answers=ans))
+            rep.sample({"sync_interval_ms": interval, "waits": ws})
+        except Died as d:
+            rep.violation("oracle", dict(what=f"harness died ({d.why}) in the interval-sync case", script=script, answers=d.answered))
+    # sync=none / always issue no background fsync
+    script = ["cfg mfs=1000000 sync=none policy=never", "dir sn", "trace on", "open", "put 61 31", "waitfor fsync 400", "close"]
+    try:
+        ans = run_harness(["store", "--root", root, "--hang-ms", "30000"], script, preload=True, timeout=60)
+        rep.cov["evaluations"] += len(script)
+        if ans[5] != "timeout":
+            rep.violation("oracle", dict(what="sync=none: a background fsync was observed", script=script, answers=ans))
+    except Died as d:
+        rep.violation("oracle", dict(what=f"harness died ({d.why})", script=script, answers=d.answered))
+    shutil.rmtree(root, ignore_errors=True)
+    rep.cov["rule"] = ("configurations x write patterns: policy always/never/window (containing or not the current hour), fragmentation and dead-bytes triggers just above and just below the written pattern "
+                       "(3 of 4 entries dead, ~84 dead bytes), check intervals 40-150 ms, jitter 0 / 0.3 / 1; the store is left alone and the directory polled: a merge (a hint file) must appear within "
+                       "interval*(1+jitter)+4 s when expected and must not appear during >= 12 intervals when not; `can_merge()` is compared with the Lean decision model; interval sync: five consecutive "
+                       "waits each see an fsync of the active file within interval+4 s; sync=none: none in 400 ms; non-trivial = distinct case")
+
+
+RUNNERS.update({"C17": run_c17, "C18": run_c18})
